@@ -385,8 +385,40 @@ def check_dimensions(ctx, db):
     ctx.require('R-DIM resolved sites', n, 130)
 
 
+def check_side_symmetry(ctx, db):
+    """R-MIRROR: the two sides of the outline are mirror images about the centre line: inside every block of FlexPath::to_polygons the
+    displaced points `P + N * half_widths[I]` (left) and `P - N * half_widths[I]` (right) come in pairs with the same point, the same
+    normal and the same width index. (A side written through a shared displacement vector has no such form and is not an instance.)"""
+    from collections import Counter
+    f = db.fn('gdstk::FlexPath::to_polygons')
+    ctx.touch(f)
+    per = {}
+    for x in f.walk():
+        if x.k not in ('CXXOperatorCallExpr', 'BinaryOperator') or x.op not in ('+', '-'):
+            continue
+        a = x.args if x.k == 'CXXOperatorCallExpr' else [x.child('lhs'), x.child('rhs')]
+        if len(a) != 2 or a[0] is None or a[1] is None:
+            continue
+        r = _strip_casts(a[1])
+        if r is None or r.k not in ('CXXOperatorCallExpr', 'BinaryOperator') or r.op != '*' or 'half_widths[' not in r.text() or 'half_widths[' in a[0].text():
+            continue
+        blk = next((b for b in x.ancestors() if b.k == 'CompoundStmt'), None)
+        per.setdefault(blk.id if blk is not None else 0, []).append((x.op, norm(a[0].text()), norm(r.text()), x))
+    n = 0
+    for bid, forms in per.items():
+        plus = Counter((p_, w) for op, p_, w, x in forms if op == '+')
+        minus = Counter((p_, w) for op, p_, w, x in forms if op == '-')
+        n += len(forms)
+        diff = (plus - minus) + (minus - plus)
+        first = forms[0][3]
+        ctx.check(not diff, 'R-MIRROR', 'FlexPath::to_polygons/sides@%d' % first.l, first.loc(), '%d displaced points in this block pair up: every `P - N*w[I]` has its `P + N*w[I]`' % len(forms),
+                  'the left and right sides of this block are not mirror images: unpaired %s' % ['%s +/- %s' % k for k in diff][:3])
+    ctx.require('R-MIRROR displaced points', n, 20)
+
+
 def run(ctx):
     db = ctx.db
+    ctx.attempt(check_side_symmetry, ctx, db)
     ctx.attempt(check_bookkeeping, ctx, db)
     ctx.attempt(check_units, ctx, db)
     ctx.attempt(check_enums, ctx, db)
